@@ -281,7 +281,7 @@ class Agg:
                 self.summary_other.setdefault(k, v)
 
 
-def _parse_line(agg, line, source, max_samples):
+def _parse_line(agg, line, source, max_samples, rerun=None):
     if not line:
         return None
     c = line[0]
@@ -305,6 +305,8 @@ def _parse_line(agg, line, source, max_samples):
                 agg.tags[t] += 1
             for v in d.get('viol', []):
                 v['idx'] = idx; v['source'] = source; v['tags'] = d.get('tags', [])
+                if rerun:
+                    v['rerun'] = dict(rerun, idx=idx)
                 agg.violations.append(v)
             if 'sample' in d and len(agg.samples) < max_samples:
                 agg.samples.append(d['sample'])
@@ -370,6 +372,8 @@ def run_chunk(agg, cmd_prefix, mode, seed, a, b, opts, env, timeout, source, max
     """run cases [a,b) in one process; on a crash attribute it to the last begun case and resume after it"""
     cur = a
     retried_hang_at = None
+    parts = cmd_prefix[0].split(os.sep)
+    rerun = dict(kind='harness', harness=parts[-1].rsplit('-', 1)[0], flavour=parts[-2], mode=mode, seed=seed, opts=opts or {}, env={k: v for k, v in (env or {}).items() if k.endswith('SAN_OPTIONS')}, wrapper=wrapper or [])
     while cur < b:
         cmd = list(wrapper or []) + list(cmd_prefix) + ['--mode', mode, '--seed', str(seed), '--from', str(cur), '--to', str(b), '--samples', str(max_samples)]
         for k, v in (opts or {}).items():
@@ -397,7 +401,7 @@ def run_chunk(agg, cmd_prefix, mode, seed, a, b, opts, env, timeout, source, max
         th.start()
         try:
             for line in p.stdout:
-                r = _parse_line(agg, line.rstrip('\n'), source, max_samples)
+                r = _parse_line(agg, line.rstrip('\n'), source, max_samples, rerun)
                 if r:
                     if r[0] == 'B':
                         last_b = r[1]
@@ -443,10 +447,10 @@ def run_chunk(agg, cmd_prefix, mode, seed, a, b, opts, env, timeout, source, max
         with agg.lock:
             if reps:
                 for rep in reps:
-                    rep['idx'] = failing; rep['rc'] = rc; rep['source'] = source
+                    rep['idx'] = failing; rep['rc'] = rc; rep['source'] = source; rep['rerun'] = dict(rerun, idx=failing)
                     agg.sanitizer_reports.append(rep)
             else:
-                agg.crashes.append(dict(idx=failing, rc=rc, source=source, stderr_tail=err[-3000:]))
+                agg.crashes.append(dict(idx=failing, rc=rc, source=source, stderr_tail=err[-3000:], rerun=dict(rerun, idx=failing)))
         if failing is None:
             return
         cur = failing + 1
@@ -502,10 +506,10 @@ class Verdict:
             for h in agg.hangs:
                 self.add('hang:' + h['source'], dict(key='hang', detail='case did not finish within the watchdog twice', idx=h['idx'], source=h['source']))
         for c in agg.crashes:
-            self.add('crash:%s:rc=%s' % (c['source'], c['rc']), dict(key='crash', detail='process died with status %s' % c['rc'], idx=c['idx'], source=c['source'], observed=dict(stderr_tail=c['stderr_tail'])))
+            self.add('crash:%s:rc=%s' % (c['source'], c['rc']), dict(key='crash', detail='process died with status %s' % c['rc'], idx=c['idx'], source=c['source'], observed=dict(stderr_tail=c['stderr_tail']), rerun=c.get('rerun')))
         for r in agg.sanitizer_reports:
             if r.get('parmcb_frame') or r['kind'].startswith(('asan', 'ubsan', 'assert', 'terminate')):
-                self.add('sanitizer:%s:%s' % (r['kind'], r.get('inner', '')[:60]), dict(key=r['kind'], detail='sanitizer / assertion report', idx=r.get('idx'), source=r.get('source'), observed=dict(report=r['text'])))
+                self.add('sanitizer:%s:%s' % (r['kind'], r.get('inner', '')[:60]), dict(key=r['kind'], detail='sanitizer / assertion report', idx=r.get('idx'), source=r.get('source'), observed=dict(report=r['text']), rerun=r.get('rerun')))
         self.failures += agg.failures
         self.inconclusive += agg.inconclusive
 
